@@ -171,6 +171,7 @@ func c07Edits(v *spec.V) []*spec.V {
 }
 
 func runC07(c *ev.Ctx) {
+	defer sizeSweep(c, "C07")
 	sqNodes := 4
 	neighNodes := 4
 	deepNodes := 5
